@@ -48,6 +48,7 @@ func c14Create() []explore.Event {
 func c14Rename() []explore.Event {
 	return []explore.Event{
 		ev("cmd", 0, "CREATE|a/b"), ev("cmd", 0, "CREATE|b"), ev("cmd", 1, "CREATE|a/b/c"),
+		ev("cmd", 0, "CREATE|ab/c"), ev("cmd", 0, "RENAME|a|x"), ev("cmd", 1, "RENAME|a|a2/x"),
 		ev("cmd", 0, "RENAME|a|x/y"), ev("cmd", 0, "RENAME|a/b|b/z"), ev("cmd", 1, "RENAME|b|a"), ev("cmd", 0, "RENAME|a|a/b/q"),
 		ev("cmd", 0, "RENAME|INBOX|old"), ev("cmd", 0, "RENAME|inbox|old2"), ev("cmd", 0, "RENAME|b|INBOX"),
 		ev("cmd", 0, "RENAME|b|Recovered Messages"), ev("cmd", 0, "RENAME|Recovered Messages|r"), ev("cmd", 0, "RENAME|nope|n2"),
